@@ -290,6 +290,9 @@ func judgeC20(hi *Hist) []*Violation {
 					if !hasT0 || elapsedLo <= 0 {
 						break
 					}
+					if float64(spy.Current)/float64(elapsedLo)*1e9 >= 1<<62 {
+						break // beyond what an int64 byte count per second can hold: outside the formatter's domain
+					}
 					val, gran, _, ok := readSize(txt)
 					if !ok {
 						add("speed-unreadable", "frame %d: average speed of bar %d prints %q", fi, g.Bar, txt)
